@@ -51,9 +51,11 @@ type harnessAgg struct {
 func defaultCfg(tier string, scratch string) Config {
 	c := Config{Tier: tier, Backend: smt.BackendCVC5, SoftMS: 5000, HardS: 20, Scratch: scratch,
 		InstrBudget: 20_000_000, DepthBudget: 300, MaxDecisions: 600, BatchMax: 12}
+	c.TimeBudget = 8 * time.Minute
 	if tier == "thorough" {
 		c.HardS = 120
 		c.SoftMS = 10000
+		c.TimeBudget = 90 * time.Minute
 	}
 	return c
 }
